@@ -108,6 +108,38 @@ def sig_of(m: t.Dict[str, t.Any]) -> str:
     return m.get("op", "?")
 
 
+def scribble(obj: t.Any, depth: int = 0) -> None:
+    """The application owns what the library returned: it may change the containers of a decoded message in place (a relay
+    appends a control before forwarding).  Nothing the library decodes or encodes LATER may depend on that, so every
+    decoded message is scribbled on once its projection has been taken."""
+    import dataclasses
+
+    import sansldap as s
+
+    if depth > 6 or not dataclasses.is_dataclass(obj) or isinstance(obj, type):
+        return
+    for f in dataclasses.fields(obj):
+        v = getattr(obj, f.name, None)
+        if isinstance(v, list):
+            for x in v:
+                scribble(x, depth + 1)
+            try:
+                if f.name == "controls":
+                    v.append(s.LDAPControl("9.9.9.9", True, b"scribbled"))
+                elif f.name == "values":
+                    v.append(b"scribbled")
+                elif f.name in ("uris", "referrals") or (f.name == "attributes" and type(obj).__name__ == "SearchRequest"):
+                    v.append("scribbled")
+                elif f.name == "attributes":
+                    v.append(s.PartialAttribute("scribbled", [b"x"]))
+                elif f.name == "filters" and v:
+                    v.append(v[0])
+            except Exception:  # noqa: BLE001  an immutable container is fine too
+                pass
+        else:
+            scribble(v, depth + 1)
+
+
 def codec_event(msg: t.Any) -> t.Dict[str, t.Any]:
     """value -> pack -> unpack -> pack, recorded for CodecTrace."""
     e: t.Dict[str, t.Any] = {"m": proj.to_abstract(msg), "packres": "ok", "packed": [], "decres": "ok", "dec": {"op": "none"},
@@ -123,6 +155,7 @@ def codec_event(msg: t.Any) -> t.Dict[str, t.Any]:
         e["dec"] = proj.to_abstract(dec)
         e["rest"] = list(rest)
         e["repacked"] = list(dec.pack(options()))
+        scribble(dec)
     except Exception as ex:  # noqa: BLE001
         e["decres"] = C.exc_kind(ex)
     return e
